@@ -69,6 +69,26 @@ func oracleC07(x *Exec, so *StepObs) {
 			foreign = append(foreign, id.String())
 		}
 	}
+	// an object that appears at a to-be-created identity WHILE the operation runs (after the pre-flight check)
+	// must not be taken over either: no applied PATCH/PUT/DELETE on an object that was foreign at that moment
+	if !op.TakeOwnership {
+		x.Res.Checks++
+		want := idSet(mids)
+		for _, q := range r.Reqs {
+			if q.ID == nil || !want[q.ID.String()] || existing[q.ID.String()] || q.TargetState != "foreign" {
+				continue
+			}
+			if so.Before.Cluster[q.ID.String()] != nil {
+				continue // it existed (and was judged) when the operation started; an actor swapping it afterwards is not Helm's doing
+			}
+			// (deletes are not judged here: the statement allows deleting any object the release's manifest names,
+			// which is what the clean-up of a failed --atomic operation does)
+			if (q.Verb == "PATCH" || q.Verb == "PUT") && q.Status >= 200 && q.Status < 300 {
+				fail("foreign-object-untouched", "appeared-during-operation", fmt.Sprintf("%s %s was applied to %s, which did not carry the release's ownership metadata at that moment (take-ownership is off)", q.Verb, q.Path, q.ID))
+				return
+			}
+		}
+	}
 	// Was the operation stopped earlier for an unrelated reason (name in use, no deployed release...)?
 	stoppedEarly := !r.OK && !strings.Contains(r.Err, "exists and cannot be imported") && len(r.Mutations()) == 0
 	if stoppedEarly {
@@ -109,10 +129,22 @@ func oracleC07(x *Exec, so *StepObs) {
 			return
 		}
 		x.Res.Checks++
+		swapped := map[string]bool{} // identities an out-of-band actor replaced while the operation ran
+		for _, f := range so.Step.Faults {
+			if f.Kind == FOob && f.Oob != nil {
+				if res, ok := resByKind(f.Oob.Kind); ok {
+					ons := f.Oob.NS
+					if ons == "" && res.Namespaced {
+						ons = ns
+					}
+					swapped[ObjID{Group: res.Group, Kind: res.Kind, Namespace: ons, Name: f.Oob.Name}.String()] = true
+				}
+			}
+		}
 		for _, id := range ManifestIDs(so.After.Rev(created).Manifest, ns) {
 			o := so.After.Cluster[id.String()]
-			if o == nil {
-				continue // C02's business
+			if o == nil || swapped[id.String()] {
+				continue // absent: C02's business; swapped mid-operation: not Helm's doing
 			}
 			if !ownedBy(o, rel, ns) {
 				cl := "typed-kind"
@@ -196,7 +228,18 @@ func genC07(seed, index uint64, tier string) *Plan {
 				p.Steps = append(p.Steps, Step{Oob: g.plantFor(s, p)})
 			}
 		}
-		p.Steps = append(p.Steps, Step{Op: &op})
+		st := Step{Op: &op}
+		if (op.Op == "install" || op.Op == "upgrade") && len(cand) > 0 && g.Chance(0.25) {
+			// the foreign object appears after the pre-flight ownership check: when the release record is created,
+			// or when the first hook is being waited for
+			pl := g.plantFor(cand[g.N(len(cand))], p)
+			f := FaultSpec{Kind: FOob, Oob: pl, Pred: &Pred{Storage: boolp(true), Verb: "POST", Nth: 1}}
+			if p.Backend == "memory" {
+				f.Pred = &Pred{Verb: "STORE", PathHas: "create", Nth: 1}
+			}
+			st.Faults = append(st.Faults, f)
+		}
+		p.Steps = append(p.Steps, st)
 	}
 	p.Variant = "planted"
 	p.Policy = "uniform"
